@@ -40,6 +40,20 @@ func freshNode(f *ssa.Function, v ssa.Value, seen map[ssa.Value]bool) bool {
 		switch g.Name() {
 		case "cloneTreapNode", "newTreapNode":
 			return true
+		default:
+			// a package-level helper of the treap package all of whose returns are fresh nodes
+			if g.Signature.Recv() == nil && g.Pkg == f.Pkg && len(g.Blocks) > 0 && len(g.Blocks) <= 20 {
+				rets := ssau.Returns(g)
+				if len(rets) == 0 {
+					return false
+				}
+				for _, ret := range rets {
+					if len(ret.Results) != 1 || !freshNode(g, ret.Results[0], seen) {
+						return false
+					}
+				}
+				return true
+			}
 		case "At", "Pop":
 			if ssau.RecvName(ssau.CalleeObj(&x.Call)) != "parentStack" {
 				return false
@@ -201,6 +215,56 @@ func runC19(c *Ctx) {
 					det = "the written node may be one that earlier versions of the treap still reference (not provably created in this call)"
 				}
 				c.R.Check("O-persist", fmt.Sprintf("%s|store#%d to treapNode.%s", short(fname(root)), k, ownerFieldName(fa)), ok2, c.posOf(st), det)
+			}
+		}
+	}
+	// node field stores in package-level helpers that Immutable methods call: a store through a parameter is
+	// judged at every call site in an Immutable method by the freshness of the argument
+	for _, f := range c.pkgFuncs(treapPkg) {
+		if f.Parent() != nil || f.Signature.Recv() == nil || ssau.TypeName(f.Signature.Recv().Type()) != "Immutable" {
+			continue
+		}
+		seenH := map[*ssa.Function]bool{}
+		for _, b := range f.Blocks {
+			for _, in := range b.Instrs {
+				cl, ok := in.(*ssa.Call)
+				if !ok {
+					continue
+				}
+				h := cl.Call.StaticCallee()
+				if h == nil || h.Pkg != f.Pkg || h.Signature.Recv() != nil || len(h.Blocks) == 0 || h.Name() == "cloneTreapNode" || h.Name() == "newTreapNode" {
+					continue
+				}
+				k := 0
+				for _, hb := range h.Blocks {
+					for _, hin := range hb.Instrs {
+						st, ok := hin.(*ssa.Store)
+						if !ok {
+							continue
+						}
+						fa, ok := st.Addr.(*ssa.FieldAddr)
+						if !ok || ssau.TypeName(fa.X.Type()) != "treapNode" {
+							continue
+						}
+						k++
+						ok2 := false
+						if p, isP := fa.X.(*ssa.Parameter); isP {
+							for pi, hp := range h.Params {
+								if hp == p && pi < len(cl.Call.Args) {
+									ok2 = freshNode(f, cl.Call.Args[pi], map[ssa.Value]bool{})
+								}
+							}
+						} else {
+							ok2 = freshNode(h, fa.X, map[ssa.Value]bool{})
+						}
+						if !seenH[h] {
+							nStores++
+						}
+						c.R.Check("O-persist", fmt.Sprintf("%s|via %s store#%d to treapNode.%s", short(fname(f)), h.Name(), k, ownerFieldName(fa)), ok2, c.posOf(cl),
+							"the node written inside the helper is an argument created in this call (or created in the helper)")
+					}
+				}
+				seenH[h] = true
 			}
 		}
 	}
